@@ -50,6 +50,44 @@ fn sign_and_report(ctx: &Arc<c2pa::Context>, b: &mut Builder, fmt: Fmt, asset: &
         }
     }
     v["thumbnail_bytes"] = Value::Object(thumbs);
+    // where a thumbnail is stored (in the ingredient's own manifest, or as a copy in the active
+    // one) is representation; what is compared is the bytes it resolves to (above)
+    if let Some(ms) = v.pointer_mut("/report/manifests").and_then(|m| m.as_object_mut()) {
+        for (_, m) in ms.iter_mut() {
+            if let Some(t) = m.get_mut("thumbnail").and_then(|t| t.as_object_mut()) {
+                t.remove("identifier");
+            }
+            if let Some(ings) = m.get_mut("ingredients").and_then(|i| i.as_array_mut()) {
+                for ing in ings {
+                    if let Some(t) = ing.get_mut("thumbnail").and_then(|t| t.as_object_mut()) {
+                        t.remove("identifier");
+                    }
+                }
+            }
+        }
+    }
+    // ... and with it the success entries that only say "this thumbnail assertion hashed fine"
+    fn drop_thumb_successes(v: &mut Value) {
+        match v {
+            Value::Object(o) => {
+                for (k, x) in o.iter_mut() {
+                    if k == "success" || k == "informational" {
+                        if let Some(a) = x.as_array_mut() {
+                            a.retain(|e| !e.get("url").and_then(|u| u.as_str()).map(|u| u.contains("c2pa.thumbnail.")).unwrap_or(false));
+                        }
+                    } else {
+                        drop_thumb_successes(x);
+                    }
+                }
+            }
+            Value::Array(a) => a.iter_mut().for_each(drop_thumb_successes),
+            _ => {}
+        }
+    }
+    drop_thumb_successes(&mut v);
+    if let Some(c) = v.get_mut("codes").and_then(|c| c.as_array_mut()) {
+        c.retain(|e| !(e.as_str().map(|s| s.contains("c2pa.thumbnail.") && s.contains("success")).unwrap_or(false)));
+    }
     Ok(v)
 }
 
@@ -59,7 +97,7 @@ impl Property for C22 {
             id: "C22",
             level: "exploration",
             rule: "one evaluation = a chain of 1-3 Builder::to_archive -> Builder::with_archive hops through SimStreams with seeded benign chunking, starting from a builder with a seeded definition (user assertions, 0-2 ingredients one of which is a signed asset), followed by signing the original and the restored builder with the same signer and comparing the read-back reports projected onto per-signing-invariant fields (labels by order, no instance ids / times / hashes); faulted variant: the archive bytes are truncated / torn / flipped on the simulated disk before restoring, and with_archive must either fail or restore a builder whose signed report equals the original's. Non-trivial = restore attempted; distinct = (format, chain length, ingredients, fault)",
-            assumptions: &["automatic thumbnail generation stays disabled; half of the runs supply a claim thumbnail and ingredient thumbnails as resources, compared by the bytes the Reader hands back"],
+            assumptions: &["automatic thumbnail generation stays disabled; a quarter of the runs supply a claim thumbnail and ingredient thumbnails as resources, another quarter use a signed ingredient that has a claim thumbnail of its own; thumbnails are compared by the bytes the Reader hands back"],
             real: &["Builder::to_archive / with_archive (working-store sign + reload), sign, Reader"],
             stubbed: &["archive streams (SimStream)", "storage of the archive between save and restore"],
             crash_prop: "C10",
@@ -87,10 +125,12 @@ impl Property for C22 {
         let asset = assets::generate(fmt, &mut r);
         let tag = format!("{}:{}ing:{}hops", fmt.name(), n_ing, hops);
         // half of the runs carry binary resources: a claim thumbnail and ingredient thumbnails
-        let with_thumbs = r.chance(1, 2);
+        let thumb_mode = r.below(4); // 0,1 none; 2 caller-supplied thumbnails; 3 the signed ingredient's own claim thumbnail
+        let with_thumbs = thumb_mode == 2;
+        let own_thumb = thumb_mode == 3;
         let tn = 200 + r.below(3000) as usize;
         let thumb_bytes = r.bytes(tn);
-        let tag = if with_thumbs { format!("{tag}:thumbs") } else { tag };
+        let tag = if with_thumbs { format!("{tag}:thumbs") } else if own_thumb { format!("{tag}:ingredient-claim-thumbnail") } else { tag };
         let mut def = g.def.clone();
         if with_thumbs {
             def["thumbnail"] = json!({"format": "image/jpeg", "identifier": "thumb.jpg"});
@@ -101,7 +141,16 @@ impl Property for C22 {
                 b.add_resource("thumb.jpg", std::io::Cursor::new(thumb_bytes.clone())).map_err(|e| format!("add_resource:{}", err_kind(&e)))?;
             }
             for i in 0..n_ing {
-                let bytes = if i == 0 {
+                let bytes = if i == 0 && own_thumb {
+                    // a signed ingredient that carries a claim thumbnail of its own
+                    let mut idef = sdk::simple_definition("ingredient");
+                    idef["thumbnail"] = json!({"format": "image/jpeg", "identifier": "it.jpg"});
+                    let mut ib = Builder::from_shared_context(ctx).with_definition(idef).map_err(|e| err_kind(&e))?;
+                    ib.add_resource("it.jpg", std::io::Cursor::new(thumb_bytes.clone())).map_err(|e| format!("add_resource:{}", err_kind(&e)))?;
+                    let mut d = std::io::Cursor::new(Vec::new());
+                    ib.sign(sdk::make_signer("ed25519").as_ref(), fmt.mime(), &mut std::io::Cursor::new(asset.clone()), &mut d).map_err(|e| format!("sign_ing:{}", err_kind(&e)))?;
+                    d.into_inner()
+                } else if i == 0 {
                     sdk::sign_plain(ctx, &sdk::simple_definition("ingredient"), "ed25519", fmt.mime(), &asset)?
                 } else {
                     asset.clone()
